@@ -4,6 +4,7 @@
 //! trusted: R5: the generic H: HasMppPart + Ord is instantiated with MppPart (one of the two call-site types; its HasMppPart impl is extracted and verified); `impl Iterator<Item=&mut MppPart>` is instantiated as the elements of a Vec<MppPart> (the call sites pass iter_mut() of a vector); ChannelManager self stub (the body reads only self.logger, removed by R3)
 //! trusted: R6: `.iter().map(|h| V).sum()` and `.iter_mut().for_each(|h| S)` and `for h in <iter_mut>` become index loops carrying the closure body verbatim; sort_parts() is an external_body wrapper for Vec::sort (a permutation); RecipientOnionFields is a skeleton {total_mpp_amount_msat} and check_merge is external_body (keeps total_mpp_amount_msat, Ok only if both totals agree); HTLCPreviousHopData, PaymentHash opaque
 //! trusted: R15 (statement slicing): handle_claimable_htlc works under the claimable_payments mutex with events and HashMap entries; the unit extracts the `let claim_deadline = Some(match <min of part expiries> {..} - HTLC_FAIL_BACK_BUFFER)` statement verbatim (the `.iter().map(..).min()` chain rewritten by R6 into a loop) as a function of the part list; ClaimableHTLC skeleton {mpp_part}
+//! trusted: R15 (deep slice): inbound_payment::verify decrypts and authenticates the payment secret (ChaCha20/HMAC, outside the verifier); the unit extracts its two final tests (total_msat against the amount and the expiry against the highest seen block time) verbatim as a function of the decoded (min_amt_msat, expiry); decoding those two numbers from the decrypted bytes is covered by the Kani harness h_info_bytes; FinalOnionHopData skeleton
 //! assume: representation invariant of an accumulating payment: the intended sum already held is < MAX_VALUE_MSAT, every part's intended value < MAX_VALUE_MSAT, the sum of received values fits u64; timer_ticks < 255; cltv_expiry >= HTLC_FAIL_BACK_BUFFER (implied by acceptance)
 use vstd::prelude::*;
 verus! {
@@ -304,6 +305,30 @@ pub proof fn lemma_min_expiry(s: Seq<ClaimableHTLC>)
     Some(claim_deadline) => claim_deadline,
 //@with
     Some(claim_deadline) => claim_deadline + 1,
+//@end
+
+// ---- the stateless invoice check: amount and expiry tests of inbound_payment::verify (deep R15 slice) ----
+pub struct PaymentSecret(pub [u8; 32]);
+pub struct FinalOnionHopData { pub payment_secret: PaymentSecret, pub total_msat: u64 }
+//@extract lightning/src/ln/inbound_payment.rs :: fn verify
+//@slice R15
+    let min_amt_msat: u64 = $a; let expiry = $b; $checks:any Ok((payment_preimage, min_final_cltv_expiry_delta))
+//@with
+    fn verify_amount_and_expiry(payment_data: &FinalOnionHopData, min_amt_msat: u64, expiry: u64, highest_seen_timestamp: u64) -> Result<(), ()> {
+        $checks
+        Ok(())
+    }
+//@ret r
+//@ensures P C04 a-payment-is-accepted-only-if-the-senders-total-covers-the-amount-fixed-in-the-payment-secret-and-the-secret-has-not-expired
+    r is Ok <==> (payment_data.total_msat >= min_amt_msat && expiry >= highest_seen_timestamp),
+//@mutant underpaying_total_accepted
+    payment_data.total_msat < min_amt_msat
+//@with
+    payment_data.total_msat + 1 < min_amt_msat
+//@mutant expired_secret_accepted
+    expiry < highest_seen_timestamp
+//@with
+    expiry + 7200 < highest_seen_timestamp
 //@end
 
 // (P) the two conditions "match exactly" (the code comments demand it): a set is complete for check_incoming_mpp_part
